@@ -91,6 +91,22 @@ func boolGroupsIn(p *Program, f *FuncInfo) []boolGroup {
 				if m, _, v, ok := FlagCall(info, y); ok && m == "Get" {
 					g.flags |= v &^ 1
 				}
+			case *ast.Ident:
+				// a bool local defined once from a flag read (the look-up hoisted out of the loop)
+				if lv, ok := IdentObj(info, y).(*types.Var); ok && !lv.IsField() {
+					if b, isB := lv.Type().Underlying().(*types.Basic); isB && b.Kind() == types.Bool {
+						if ds := defsOf(info, f.Body(), lv); len(ds) == 1 {
+							ast.Inspect(ds[0], func(q ast.Node) bool {
+								if c2, ok := q.(*ast.CallExpr); ok {
+									if m2, _, v2, ok := FlagCall(info, c2); ok && m2 == "Get" {
+										g.flags |= v2 &^ 1
+									}
+								}
+								return true
+							})
+						}
+					}
+				}
 			}
 			return true
 		})
@@ -761,6 +777,8 @@ func init() {
 }
 
 func rulePTR2(c *Ctx) {
+	ptrRuneErrorDistinguished(c)
+	ptrMismatchNotLiftedTwice(c)
 	p := c.P
 	rp := p.Field("jsontext", "pointerSuffixError", "reversePointer")
 	esc := p.Lookup("jsontext", "appendEscapePointerName")
